@@ -230,7 +230,7 @@ LIB_IGNORE_NAMES = {
     # Iterator adaptors / consumers: "overflow" of the element count only
     "count", "enumerate", "last", "position", "rposition", "sum", "product", "nth", "step_by", "skip", "take", "rev", "zip", "chain",
     # growth: capacity overflow / allocation failure only
-    "push", "push_str", "with_capacity", "reserve", "extend", "extend_from_slice", "append", "insert_str", "from_elem", "resize",
+    "push", "push_str", "with_capacity", "reserve", "extend", "extend_from_slice", "append", "insert_str", "from_elem", "resize", "repeat",
     # sorting: panics only if the comparator panics / is not a total order on the compared keys
     "sort", "sort_by", "sort_by_key", "sort_by_cached_key", "sort_unstable", "sort_unstable_by", "sort_unstable_by_key",
     # never panics / documented as returning None
